@@ -43,6 +43,8 @@ def run(repo: Repo, rep, tier: str):
     rep.count("reader_handlers", n_r, 75)
     structural_handlers(repo, rep, "C01", secs)
     c12.pack_pairs(repo, rep, "C01", "R3")
+    c12.note_raw_data(repo, rep, "C01")          # identical note cells: cell codec and row-major image (shared with C12)
+    c12.pattern_raw_data(repo, rep, "C01")
     omission_defaults(repo, rep, "C01", secs)
     truncation_rule(repo, rep, "C01", secs)
     none_safety(repo, rep, "C01", secs)
